@@ -58,7 +58,7 @@ def histories(ctx):
     ex = sc.exhaustive_histories(ALPHABET, n)
     ctx.notes.append("exhaustive: %d histories of length <= %d over %d operation templates" % (len(ex), n, len(ALPHABET)))
     hs += ex
-    for _ in range(ctx.budget(120, 1500)):
+    for _ in range(ctx.budget(120, 700)):
         hs.append(sc.random_history(ctx.rng, ctx.rng.randrange(4, 41)))
     return hs
 
